@@ -899,7 +899,7 @@ pub proof fn %s(x: %s)
         for (s, kw, e) in split_items(tmp, 0, len(tmp.toks)):
             k = tmp.toks[kw].text
             if k == 'struct':
-                out.append('#[derive(Clone, Copy, PartialEq, Eq, PartialOrd, Ord, Hash, Default, Structural)]\npub struct %s(pub %s);' % (m.name, base_alias))
+                out.append('#[derive(Debug, Clone, Copy, PartialEq, Eq, PartialOrd, Ord, Hash, Default, Structural)]\npub struct %s(pub %s);' % (m.name, base_alias))
             elif k == 'impl':
                 j = kw + 1
                 while tmp.toks[j].text != '{':
